@@ -67,6 +67,7 @@ type SpecDecl struct {
 	Src    string
 	Reads  []string // components read (for uninterpreted, heap-dependent specs); nil = heap independent
 	HeapDep bool
+	Opaque bool // translated as an uninterpreted symbol with a (quantified) definitional axiom
 	File   string
 	Line   int
 }
@@ -104,6 +105,7 @@ type Contracts struct {
 	Files    []string
 	Guards   map[string]GuardDecl // "pkgpath::global" -> mutex
 	NonNilGlobals map[string]bool // "pkgpath::global": assigned once, in the package initializer, a non-nil value
+	GlobalTypes   map[string]string // optional dynamic type of such a global ("name:Type")
 }
 
 type GuardDecl struct {
@@ -112,7 +114,7 @@ type GuardDecl struct {
 }
 
 func newContracts() *Contracts {
-	return &Contracts{Funcs: map[string]*FuncContract{}, Specs: map[string]*SpecDecl{}, Ghosts: map[string]*GhostDecl{}, Guards: map[string]GuardDecl{}, NonNilGlobals: map[string]bool{}}
+	return &Contracts{Funcs: map[string]*FuncContract{}, Specs: map[string]*SpecDecl{}, Ghosts: map[string]*GhostDecl{}, Guards: map[string]GuardDecl{}, NonNilGlobals: map[string]bool{}, GlobalTypes: map[string]string{}}
 }
 
 // classOverride: struct types (pkgname.Type) whose components belong to a class other than
@@ -393,7 +395,12 @@ func (cs *Contracts) loadContractFile(path, pkgPath string) error {
 				return fail("expected: global nonnil <name>...")
 			}
 			for _, n := range f[1:] {
-				cs.NonNilGlobals[pkgPath+"::"+strings.TrimSuffix(n, ",")] = true
+				n = strings.TrimSuffix(n, ",")
+				if k := strings.Index(n, ":"); k > 0 {
+					cs.GlobalTypes[pkgPath+"::"+n[:k]] = n[k+1:]
+					n = n[:k]
+				}
+				cs.NonNilGlobals[pkgPath+"::"+n] = true
 			}
 		case "guarded":
 			cur = nil
@@ -470,6 +477,10 @@ func parseSpecDecl(kind, rest string) (*SpecDecl, error) {
 		}
 	}
 	tail := strings.TrimSpace(rest[cp+1:])
+	if strings.HasSuffix(tail, " opaque") || tail == "opaque" {
+		sd.Opaque = true
+		tail = strings.TrimSpace(strings.TrimSuffix(tail, "opaque"))
+	}
 	if k := strings.Index(tail, "reads "); k >= 0 {
 		rd := strings.TrimSpace(tail[k+6:])
 		tail = strings.TrimSpace(tail[:k])
